@@ -7,29 +7,44 @@ def seq(name, scen, mm=0, init=1, mn=1, mx=4, flags=0, lops=3, unwind=6, desc=''
     return dict(name=name, src='c08_lfht_seq.c',
                 cflags=['-DSCEN=%d' % scen, '-DMM=%d' % mm, '-DINIT=%d' % init, '-DMINB=%d' % mn, '-DMAXB=%d' % mx, '-DFLAGS=%d' % flags,
                         '-DLOPS=%d' % lops] + list(extra_cf),
-                nslots=1, pre=['seq'], plain=[('seq', 0)], stub_map=STUB, extra_srcs=['src/rculfhash-mm-%s.c' % ['order', 'chunk'][mm]], unwind=unwind, unwinding_assertions=True, timeout=timeout, mem_gb=20,
+                nslots=1, pre=['seq'], plain=[('seq', 0)], stub_map=STUB, extra_srcs=['src/rculfhash-mm-%s.c' % ['order', 'chunk'][mm]], unwind=unwind, unwinding_assertions=True, timeout=timeout, mem_gb=20, intaddr_ok=True, unwind_fn={'^F0_(a_|seq|check_|setup|one_op|uidx|model_)': 10},
                 witnesses=['end of harness reachable'] + list(wit or []), desc=desc,
                 bounds=dict(ops=lops, nodes=3, hashes='2 fully symbolic 64-bit hash values', init=init, min=mn, max=mx, mm=['order', 'chunk'][mm]))
 
 
+OPN = ['add', 'addu', 'addr', 'del', 'resize']
+
+
+def opseq(mm, ops, cfg, tier):
+    i, mn, mx = cfg
+    mmn = ['order', 'chunk'][mm]
+    o = seq('ops_%s_%s_i%d_m%d_M%d' % (mmn, '_'.join(OPN[x] for x in ops), i, mn, mx), 1, mm, i, mn, mx, 0, len(ops),
+            extra_cf=['-DOP%d=%d' % (k + 1, x) for k, x in enumerate(ops)], unwind=6,
+            desc='operations %s on symbolic nodes (3 nodes, symbolic keys, 2 symbolic 64-bit hashes) vs reference multimap; then lookup+next_duplicate per key, '
+                 'full traversal, count_nodes, size bounds; destroy iff empty' % ', '.join(OPN[x] for x in ops))
+    return o
+
+
 def obligations(tier):
     q = tier == 'quick'
-    L = 3 if q else 4
     obs = []
-    for mm, mmn in ((0, 'order'), (1, 'chunk')):
-        cfgs = [(1, 1, 4)] if q else [(1, 1, 4), (2, 1, 2), (4, 2, 4), (1, 2, 8)]
-        for (i, mn, mx) in cfgs:
-            obs.append(seq('ops_%s_i%d_m%d_M%d' % (mmn, i, mn, mx), 1, mm, i, mn, mx, 0, L,
-                           desc='%d symbolic operations (add/add_unique/add_replace/del/resize) on 3 nodes with 2 symbolic 64-bit hashes vs reference multimap; '
-                                'after every step: lookup+next_duplicate per key, full traversal, count_nodes, size bounds; destroy iff empty' % L,
-                           wit=['both keys hash to the same value', 'duplicate key stored', 'add_replace replaced a node', 'resize to 4 buckets']))
-        obs.append(seq('new_params_%s' % mmn, 3, mm, desc='cds_lfht_new parameter normalisation for arbitrary (init,min,max) within the pool capacity',
+    import itertools
+    if q:
+        seqs = [(0, 0, 1), (0, 1, 2), (0, 2, 3), (1, 0, 3), (0, 4, 0), (0, 3, 2), (2, 2, 4), (0, 0, 4)]
+    else:
+        seqs = list(itertools.product(range(5), repeat=3))
+    for mm in (0, 1):
+        cfgs = [(1, 1, 4)] if q else [(1, 1, 4), (2, 1, 2)]
+        for cfg in cfgs:
+            for ops in (seqs if mm == 0 or not q else seqs[:3]):
+                obs.append(opseq(mm, ops, cfg, tier))
+        obs.append(seq('new_params_%s' % ['order', 'chunk'][mm], 3, mm, extra_cf=['-DPMAX=%d' % (2 if q else 4)], desc='cds_lfht_new parameter normalisation for arbitrary (init,min,max) within the pool capacity',
                        wit=['max < init', 'min > init']))
     return obs
 
 
 EXPLANATION = 'C08: sequential lfht behaviour equals a reference multimap'
-OUTSIDE = 'sequences longer than L operations, more than 3 nodes / 2 distinct keys, tables above 8 buckets, the mmap allocator (needs the mmap primitive), AUTO_RESIZE (C09)'
+OUTSIDE = 'sequences longer than 3 operations (operation kinds enumerated, operands symbolic), more than 3 nodes / 2 distinct keys, tables above 8 buckets, the mmap allocator (needs the mmap primitive), AUTO_RESIZE (C09)'
 ASSUMPTIONS = ['custom cds_lfht_alloc backed by typed static pools (allocation never fails)', 'get_possible_cpus_array_len() stubbed to 1 (sysfs parsing)',
                'flavor = ghost read_lock/unlock/synchronize_rcu']
 LEVEL_TEXT = ('Bounded model checking (with unwinding assertions) of the real rculfhash.c + bucket allocator for every sequence of L operations and every pair of 64-bit hash values '
